@@ -58,6 +58,13 @@ def call(ex, node, state):
             raise Unsupported('list() of %s at line %d' % (type(v).__name__, line))
         if nm == 'range':
             raise Unsupported('range object outside a loop at line %d' % line)
+        if nm == 'expm_multiply':
+            a, v = npmodel.need_rank(ex, state, ex.ev(node.args[0], state), line), npmodel.need_rank(ex, state, ex.ev(node.args[1], state), line)
+            if len(a.shape) != 2 or len(v.shape) != 1:
+                raise Unsupported('expm_multiply with unexpected ranks at line %d' % line)
+            ex.ctx.oblige(state, 'expm-square', line, a.shape[0] == a.shape[1], 'expected a square matrix')
+            ex.ctx.oblige(state, 'expm-shape', line, a.shape[1] == v.shape[0], 'shapes of matrix and vector are not compatible')
+            return npmodel.new_arr(state, [v.shape[0]], z3.simplify(z3.Or(a.cplx, v.cplx)))
         if nm == 'TT':
             args = [ex.ev(a, state) for a in node.args]
             return call_contract(ex, state, 'TT.__init__', [None] + args, kwargs_of(ex, node, state), line)
@@ -375,6 +382,8 @@ def method(ex, state, obj, name, args, kw, line, node):
     if isinstance(obj, SList):
         if name == 'append':
             ex.frame_list(obj, state, line)
+            if obj.kind == 'ttref' and isinstance(args[0], STT) and obj.items is None:
+                args = [args[0].ref]
             if obj.items is not None:
                 obj.items.append(args[0])
                 obj.length = len(obj.items)
